@@ -1,7 +1,9 @@
 import Pycoin.Driver.Core
 import Pycoin.Model.Value
+import Pycoin.Model.TxBuild
 namespace Pycoin.Driver.C13
 open Pycoin.Value Pycoin.Driver
+open Pycoin.Build
 
 def parseOut? (s : String) : Option Out :=
   match s.splitOn ":" with
@@ -26,6 +28,151 @@ def parseDb? (s : String) : Option (List (Bytes × List Out)) :=
 
 def showVErr : VErr → String
   | .keyError => "KeyError" | .badSpendable => "BadSpendableError" | .indexError => "IndexError"
+
+
+/-! ### second part: recommended fee, create_tx as a whole, histories with coinbase / missing unspents, lying db -/
+
+def hexChars (b : Bytes) : String := hx b
+
+/-- `F:v:script:hash:idx`, F = o (object) | t (its `as_text()`) | d (its `as_dict()`) -/
+def parseSpForm? (s : String) : Option SpForm :=
+  match s.splitOn ":" with
+  | [f, v, sc, h, i] => do
+    let sp : Pycoin.Spendable := ⟨← parseInt? v, ← parseHex? sc, ← parseHex? h, ← parseInt? i, 0, 0, 0⟩
+    if f = "o" then some (.obj sp)
+    else if f = "t" then some (.text sp.asText)
+    else if f = "d" then some (.dict sp.asDict)
+    else none
+  | _ => none
+
+/-- `F:v:script`, F = p (pair) | b (bare address: value 0 whatever is written) -/
+def parsePayable? (s : String) : Option Payable :=
+  match s.splitOn ":" with
+  | [f, v, sc] => do
+    let v ← parseInt? v
+    let sc ← parseHex? sc
+    if f = "p" then some ⟨v, sc⟩ else if f = "b" then some ⟨0, sc⟩ else none
+  | _ => none
+
+def parseFee? (s : String) : Option (Option Int) :=
+  if s = "std" then some none else (parseInt? s).map some
+
+def showBuilt (b : Built) : String :=
+  let outs := b.tx.outs.map (·.value)
+  let ins := b.unspents.map (·.coinValue)
+  "ok " ++ showList toString outs ++ " fee=" ++ toString (Value.fee ins outs)
+    ++ " in=" ++ showList (fun (i : Pycoin.TxIn) => hx i.prevHash ++ ":" ++ toString i.prevIndex) b.tx.ins
+    ++ " us=" ++ showList toString ins
+
+def parseOptInt? (s : String) : Option (Option Int) :=
+  if s = "n" then some none else (parseInt? s).map some
+
+def parseHStep? (t : String) : Option HStep :=
+  match t.splitOn ":" with
+  | ["fee"] => some .fee
+  | ["total_in"] => some .totalIn
+  | ["total_out"] => some .totalOut
+  | ["set_unspents", vs] => (parseList? parseOptInt? vs).map .setUnspents
+  | ["assign", vs] => (parseList? parseOptInt? vs).map .assign
+  | ["from_db", vs, ign] => do some (.fromDb (← parseList? parseOptInt? vs) (ign = "1"))
+  | ["set_out", i, v] => do some (.setOut (← parseNat? i) (← parseInt? v))
+  | _ => none
+
+def showHAns : HAns → String
+  | .val v => toString v
+  | .done => "-"
+  | .err e => e.tag
+
+/-- `key=hash=v:s;v:s` entries separated by `|`; `~` = empty db -/
+def parseDbH? (s : String) : Option (List (Bytes × SrcTx)) :=
+  if s = "~" then some [] else
+  (s.splitOn "|").mapM fun e =>
+    match e.splitOn "=" with
+    | [k, h, outs] => do
+      let kb ← parseHex? k
+      let hb ← parseHex? h
+      let os ← if outs = "" then some [] else (outs.splitOn ";").mapM parseOut?
+      pure (kb, ⟨hb, os⟩)
+    | _ => none
+
+def handle2 : Handler := fun op args =>
+  match op, args with
+  | "recfee_n", [n] => do some s!"ok {recommendedFeeForSize (← parseNat? n)}"
+  | "recfee", [h] => do
+    let b ← parseHex? h
+    match Pycoin.Tx.fromBin .btc b with
+    | .error e => some ("err " ++ e.tag)
+    | .ok (tx, _) =>
+      match recommendedFeeForTx tx with
+      | .ok f => some s!"ok {f}"
+      | .error e => some ("err " ++ e.tag)
+  | "ctx", [fee, sps, pays] => do
+    let fee ← parseFee? fee
+    let sps ← parseList? parseSpForm? sps
+    let pays ← parseList? parsePayable? pays
+    match createTx sps pays fee with
+    | .ok b => some (showBuilt b)
+    | .error e => some ("err " ++ e.tag)
+  | "csigned", [fee, ins, keys, pays, supplied] => do
+    let fee ← parseFee? fee
+    let ins ← parseList? parseInt? ins
+    let keys ← parseList? parseNat? keys
+    let pays ← parseList? parsePayable? pays
+    let supplied ← parseList? parseNat? supplied
+    if ins.length ≠ keys.length then none else
+    let sps : List SpForm := (ins.zip (List.range ins.length)).map fun (v, i) =>
+      .obj ⟨v, [], List.replicate 32 (UInt8.ofNat (i + 1)), (i : Int), 0, 0, 0⟩
+    match createSignedTx sps pays fee keys supplied with
+    | .ok b =>
+      let outs := b.tx.outs.map (·.value)
+      some ("ok " ++ showList toString outs ++ " fee=" ++ toString (Value.fee ins outs))
+    | .error e => some ("err " ++ e.tag)
+  | "chain", [srcs, picks, pays, fee, tamper] => do
+    -- source transactions (real hashes) → tx_outs_as_spendable → create_tx → validate_unspents against those sources
+    let fee ← parseFee? fee
+    let pays ← parseList? parsePayable? pays
+    let srcOuts ← (srcs.splitOn "|").mapM fun e => (e.splitOn ";").mapM parseOut?
+    let srcTxs : List Pycoin.Tx := (srcOuts.zip (List.range srcOuts.length)).map fun (outs, j) =>
+      ⟨1, [⟨List.replicate 32 (UInt8.ofNat (j + 1)), (j : Int), [], 4294967295, []⟩], outs.map (fun o => ⟨o.value, o.script⟩), 0⟩
+    let hashed ← srcTxs.mapM fun t => match Pycoin.Tx.hash .btc t with | .ok h => some (h, t) | .error _ => none
+    let picks ← parseList? (fun p => match p.splitOn ":" with | [j, i] => do some ((← parseNat? j), (← parseNat? i)) | _ => none) picks
+    let sps ← picks.mapM fun (j, i) => do
+      let (h, t) ← hashed[j]?
+      let o ← t.outs[i]?
+      some (SpForm.obj ⟨o.value, o.script, h, (i : Int), 0, 0, 0⟩)
+    let tam ← if tamper = "-" then some none else
+      match tamper.splitOn ":" with | [k, dv] => do some (some ((← parseNat? k), (← parseInt? dv))) | _ => none
+    match createTx sps pays fee with
+    | .error e => some ("err " ++ e.tag)
+    | .ok b =>
+      let us : List Out := (b.unspents.zip (List.range b.unspents.length)).map fun (u, k) =>
+        ⟨match tam with | some (k', dv) => if k = k' then u.coinValue + dv else u.coinValue | none => u.coinValue, u.script⟩
+      let ins : List In := b.tx.ins.map fun i => ⟨i.prevHash, i.prevIndex.toNat⟩
+      let db : Bytes → Option SrcTx := fun h => (hashed.find? (·.1 = h)).map fun (h', t) => ⟨h', t.outs.map fun o => ⟨o.value, o.script⟩⟩
+      match validateUnspentsFull db ins us with
+      | .error e => some ("err " ++ showVErr e)
+      | .ok () =>
+        let outs := b.tx.outs.map (·.value)
+        some ("ok " ++ showList toString outs ++ " fee=" ++ toString (Value.fee (us.map (·.value)) outs))
+  | "txhist2", [cb, us, outs, steps] => do
+    let cb ← parseList? (fun s => if s = "1" then some true else if s = "0" then some false else none) cb
+    let us ← parseList? parseOptInt? us
+    let outs ← parseList? parseInt? outs
+    let steps ← (steps.splitOn ";").mapM parseHStep?
+    some ("ok " ++ ";".intercalate ((hRun ⟨cb, us, outs⟩ steps).map showHAns))
+  | "validate_unspents_h", [ins, us, outs, db] => do
+    let ins ← parseList? parseIn? ins
+    let us ← parseList? parseOut? us
+    let outs ← parseList? parseInt? outs
+    let db ← parseDbH? db
+    match validateUnspentsFull (fun h => (db.find? (·.1 = h)).map (·.2)) ins us with
+    | .error e => some ("err " ++ showVErr e)
+    | .ok () =>
+      let st : TxSt := ⟨ins.map (fun i => i.prevHash == Value.zero32 && i.prevIndex == 4294967295), us.map (fun o => some o.value), outs⟩
+      match st.fee with
+      | .ok f => some s!"ok {f}"
+      | .error e => some ("err " ++ e.tag)
+  | _, _ => none
 
 def handle : Handler := fun op args =>
   match op, args with
@@ -80,6 +227,6 @@ def handle : Handler := fun op args =>
     match validateUnspents (fun h => (db.find? (·.1 = h)).map (·.2)) ins us with
     | .ok () => some "ok"
     | .error e => some ("err " ++ showVErr e)
-  | _, _ => none
+  | _, _ => handle2 op args
 
 end Pycoin.Driver.C13
